@@ -33,6 +33,12 @@ contract("queue", "Queue.get", cls="Queue", sig=["self"], returns="U",
     ensures=["self.nget == old(self.nget) + 1",
              "self.nget_stop == old(self.nget_stop) + ite(ISA_StopSentinel(result), 1, 0)"],
     note="blocking get(): returns an item chosen by the environment (other threads); never raises queue.Empty")
+contract("queue", "Queue.empty", cls="Queue", sig=["self"], returns="bool",
+    assumed=True, verify=False, props=["C13", "C14"], modifies=[],
+    note="snapshot answer decided by the environment (other threads): unconstrained")
+contract("queue", "Queue.qsize", cls="Queue", sig=["self"], returns="int",
+    assumed=True, verify=False, props=["C13", "C14"], modifies=[], ensures=["result >= 0"],
+    note="snapshot answer decided by the environment (other threads)")
 contract("threading", "Collector.__init__", cls="Collector", sig=["self", "func", "to_process", "results"],
     params={"func": "func", "to_process": "ref:Queue", "results": "ref:Queue"},
     assumed=True, verify=False, props=["C13"],
@@ -143,7 +149,7 @@ contract(ML, "LazyPool.imap_unordered", props=["C13", "C07", "C14", "C02"],
         ], frame=_LPF),
     })
 
-contract(ML, "Collector.run", props=["C13", "C07"], params={},
+contract(ML, "Collector.run", props=["C13", "C07"], params={}, foreign_base=True,
     modifies=["Queue.nput", "Queue.nput_stop", "Queue.nget", "Queue.nget_stop"],
     requires=["self._to_process is not self._results",
               # results of the mapped function are not sentinels
